@@ -20,6 +20,7 @@ RULE = ("for each call spec (all iterator tools, groupby operation sequences and
         "one evaluation = one injection; non-trivial = the stdlib twin actually raised the injected object; "
         "distinct = (spec, flavours, probe, k, exception type)")
 RULE += (" Also: fault types KeyError/IndexError/AssertionError and instances of Exception/BaseException themselves; a fault planted in a callable call or item pull that the counterpart performs and the library skips (with a differing outcome) is reported; the probes' aclose() returns a truthy value.")
+RULE += (' Also: a source whose plain (non-async) __anext__ fails when called.')
 ASSUMPTIONS = ["Stop(Async)Iteration / IndexError are never injected (their meaning is the language's, not the library's)",
                "closing a faulted source is release, not use"]
 EXHAUSTIVE = {"quick": False, "thorough": False}
